@@ -137,8 +137,11 @@ func (st *e1State) genOp(rt *rapid.T) model.Op {
 	case model.CSetCallback:
 		o.On = rapid.Bool().Draw(rt, "install")
 	case model.CRange:
-		if irange(rt, 0, 2, "stopEarly") == 0 {
+		switch irange(rt, 0, 5, "stopEarly") {
+		case 0, 1:
 			o.N = irange(rt, 1, 6, "stopAfter")
+		case 2:
+			o.N = -1 // nil visitor
 		}
 	case model.HAdvance:
 		// land exactly on, one tick before or one tick after the expiry of a live entry
